@@ -14,6 +14,11 @@ func checkC07(c *core.Ctx) {
 		targets = enum.Shapes(5, []int{1, 2, 3})
 	} else {
 		targets = enum.Shapes(3, []int{1, 2, 3})
+		for _, s := range enum.Shapes(4, []int{1, 2}) {
+			if len(s) == 4 {
+				targets = append(targets, s)
+			}
+		}
 	}
 	run := func(id string, op ref.Op, shapes [][]int, mask int, wi int, expanded bool) {
 		c.Case(id, expanded, func() core.Verdict {
